@@ -131,6 +131,33 @@ T_C12_BlockNeverFails == IsBlockEv(ev) => (ev.ok /\ ~ob.panicked)
 T_C18_NoAbnormalAbort ==
   [][(NotReset /\ ev'.dom = "spec" /\ WellFormed(ev'.m) /\ PreOf(st, ev')) => ~ob'.panicked]_tvars
 
+\* ---- C09: export / validate / import / re-export at the logged state
+T_C09_RoundTrip ==
+  ev.type = "ExportImport" =>
+    /\ ob.export_panic = "" /\ ob.import_panic = ""
+    /\ ob.validate_eco = "" /\ ob.validate_data = ""
+    /\ ob.reexport_equal
+    /\ ob.inv_after_import = ""
+\* the imported chain is in the same abstract state (and the behaviour goes on there)
+T_C09_SameState == [][ev'.type = "ExportImport" => st' = st]_tvars
+
+\* ---- C10: replicas (fresh processes, other restart schedules) log the same digests
+T_C10_SameDigests ==
+  ev.type = "Replica" =>
+    \A i \in DOMAIN ob.replica_digests : ob.replica_digests[i] = ob.primary_digests
+IsMsgEv(e) == ~IsBlockEv(e) /\ ~IsObsEv(e)
+T_C10_FailedLeavesNoTrace ==
+  [][(NotReset /\ IsMsgEv(ev') /\ ~ev'.ok) => (st' = st /\ ob'.kv_before = ob'.kv_after)]_tvars
+\* a restart at a block boundary is invisible: the block step conforms like any other
+T_C10_RestartInvisible ==
+  [][(NotReset /\ IsBlockEv(ev')) => conf']_tvars
+
+\* ---- C17: every logged query walk agrees with the specification's operators
+T_C17_Lists ==
+  ev.type = "Query" => \A i \in DOMAIN ob.lists : C17_ListOK(st, ob.lists[i])
+T_C17_Singles ==
+  ev.type = "Query" => \A i \in DOMAIN ob.singles : C17_SingleOK(st, ob.singles[i])
+
 \* conformance as a checkable invariant (used by the self-test and the
 \* strict conformance target)
 T_Conformance == conf
